@@ -1,5 +1,5 @@
 SPECIFICATION Spec
 CONSTANTS Shards = {s1, s2, s3} NR = 3 MaxBulk = 5 SizeSet = {1, 2, 3} MaxFaults = 6 MaxTries = 3 MaxSearch = 3 MaxInflight = 2
   Pages <- PagesMany Lag = TRUE Seals = TRUE Shuffles = {FALSE, TRUE} Mut = "nodedup"
-INVARIANTS TypeOK AckedEverywhereNeeded AckPending WrittenSound NothingToSendNever FailOnlyAfterAllTries SearchSeesAcked PartialIsCorrect NoDuplicates HonestPartial FetchAligned TotalNotBelow
+INVARIANTS TypeOK NoDuplicates AckedEverywhereNeeded AckPending WrittenSound NothingToSendNever FailOnlyAfterAllTries SearchSeesAcked PartialIsCorrect NoDuplicates HonestPartial FetchAligned TotalNotBelow
 PROPERTIES Durable
